@@ -28,6 +28,21 @@ pub fn kb_source(depth: usize) -> Vec<String> {
     v.push("t5($X) :- not(color(purple)), num($X), $X > 10.".into());
     v.push("t6($X) :- (color($X); num($X)), print(%s., $X), $X == blue.".into());
     v.push("t7($X) :- color($X), not(t3($X)).".into());
+    // print formats held in a variable, the same variable name in two predicates
+    v.push("fmta(%s!).".into());
+    v.push("fmtb(<%s>).".into());
+    v.push("fmtb([%s]).".into());
+    v.push("t8($X) :- fmta($F), color($X), print($F, $X), nl.".into());
+    v.push("t9($X) :- fmtb($F), num($X), $X < 3, print($F, $X).".into());
+    // list built-ins, arithmetic, recursion, a cut inside a disjunction, not over a not
+    v.push("t10($L) :- append([a], [b, c], $M), count($M, $N), $L = [$N | $M].".into());
+    v.push("t11($S) :- num($A), $A > 10, $S = $A * 2 .".into());
+    v.push("len([], 0).".into());
+    v.push("len([$H | $T], $N) :- len($T, $M), $N = $M + 1 .".into());
+    v.push("t12($N) :- len([a, b, c], $N).".into());
+    v.push("t13($X) :- num($X), ($X == 1; $X == 12), !.".into());
+    v.push("t14($X) :- color($X), not(not($X = red)).".into());
+    v.push("t15($X, $Y) :- include(f($_), [f(1), g(2), f(3)], $X), exclude(f($_), [f(1), g(2)], $Y).".into());
     let vars: Vec<String> = (0..depth).map(|i| format!("$N{}", i)).collect();
     let gen: String = vars.iter().map(|n| format!("num({})", n)).collect::<Vec<_>>().join(", ");
     // never succeeds, needs the whole search space to find that out
@@ -52,8 +67,10 @@ pub fn load_kb(depth: usize) -> KnowledgeBase {
     kb
 }
 
-pub const QUERIES: [&str; 12] = ["t1($X)", "t2($A, $B)", "t3($X)", "t4($X, $L)", "t5($N)", "t6($X)", "t7($X)", "pair($P, $Q)", "num(13)",
-                                 "slow($S)", "trap($T)", "mixed($M)"];
+pub const QUERIES: [&str; 20] = ["t1($X)", "t2($A, $B)", "t3($X)", "t4($X, $L)", "t5($N)", "t6($X)", "t7($X)", "pair($P, $Q)", "num(13)",
+                                 "slow($S)", "trap($T)", "mixed($M)",
+                                 "t8($X)", "t9($X)", "t10($L)", "t11($S)", "t12($N)", "t13($X)", "t14($X)", "t15($X, $Y)"];
+pub const LAST_SLOW: usize = 11;
 pub const FIRST_SLOW: usize = 9;
 
 /// True answer sequences of the slow queries (known by construction).
@@ -217,7 +234,8 @@ pub struct C22 { depth: usize, hist: Vec<Vec<(usize, Driver)>>, baseline: HashMa
 fn step_alphabet() -> Vec<(usize, Driver)> {
     vec![(0, Driver::Ns), (0, Driver::Reask), (1, Driver::Ns), (1, Driver::SolveAll), (2, Driver::Solve(3)), (3, Driver::Abandon(2)), (4, Driver::SolveAll),
          (5, Driver::Ns), (6, Driver::Reask), (7, Driver::Abandon(1)), (7, Driver::SolveAll), (8, Driver::Solve(2)),
-         (9, Driver::SolveAll), (9, Driver::Solve(5)), (10, Driver::Solve(1)), (11, Driver::SolveAll)]
+         (9, Driver::SolveAll), (9, Driver::Solve(5)), (10, Driver::Solve(1)), (11, Driver::SolveAll),
+         (12, Driver::Ns), (13, Driver::SolveAll), (13, Driver::Abandon(1)), (14, Driver::Solve(2)), (15, Driver::Ns), (16, Driver::SolveAll), (17, Driver::Reask), (18, Driver::Ns), (19, Driver::SolveAll)]
 }
 
 impl C22 {
@@ -236,7 +254,7 @@ impl C22 {
             let mut h = vec![];
             for _ in 0..n {
                 let q = r.below(QUERIES.len());
-                let d = if q >= FIRST_SLOW { if r.chance(1, 2) { Driver::SolveAll } else { Driver::Solve(r.range(1, 5)) } }
+                let d = if q >= FIRST_SLOW && q <= LAST_SLOW { if r.chance(1, 2) { Driver::SolveAll } else { Driver::Solve(r.range(1, 5)) } }
                         else { match r.below(5) { 0 => Driver::Ns, 1 => Driver::Abandon(r.range(1, 3)), 2 => Driver::Reask, 3 => Driver::Solve(r.range(1, 6)), _ => Driver::SolveAll } };
                 h.push((q, d));
             }
@@ -250,9 +268,9 @@ impl C22 {
 impl Workload for C22 {
     fn total(&self) -> u64 { self.hist.len() as u64 }
     fn rule(&self) -> String {
-        format!("one fresh process per history; histories: all ordered pairs over a 16-step alphabet (12 queries incl. not/cut/print/append and three that exceed the 1 s limit; drivers next_solution to exhaustion, k answers then abandon, re-ask 3x after exhaustion, solve x n, solve_all), all triples over a 6-step sub-alphabet, plus seeded random histories of 3-6 steps; oracle: every step's answers and output equal those of the same (query, driver) run as the first action of a fresh process; slow searches are sized at run time (12^{} combinations); non-trivial when the history contains a timed-out, abandoned or re-asked step before its last step; distinct by history text", self.depth)
+        format!("one fresh process per history; histories: all ordered pairs over a 25-step alphabet (20 queries incl. not/cut/print with constant and variable-held formats/append/count/include/arithmetic/recursion and three that exceed the 1 s limit; drivers next_solution to exhaustion, k answers then abandon, re-ask 3x after exhaustion, solve x n, solve_all), all triples over a 6-step sub-alphabet, plus seeded random histories of 3-6 steps; oracle: every step's answers and output equal those of the same (query, driver) run as the first action of a fresh process; slow searches are sized at run time (12^{} combinations); non-trivial when the history contains a timed-out, abandoned or re-asked step before its last step; distinct by history text", self.depth)
     }
-    fn exhaustive_part(&self) -> Option<String> { Some("all 256 ordered step pairs and all 216 triples over the sub-alphabet".into()) }
+    fn exhaustive_part(&self) -> Option<String> { Some("all 625 ordered step pairs and all 216 triples over the sub-alphabet".into()) }
     fn describe(&mut self, idx: u64) -> String { json::obj(&[("history", json::esc(&self.show(&self.hist[idx as usize].clone())))]) }
     fn run(&mut self, idx: u64) -> Outcome {
         let h = self.hist[idx as usize].clone();
@@ -260,7 +278,7 @@ impl Workload for C22 {
         let mut out = Outcome::new(hash_str(&text));
         out.evals = 0;
         out.sample = json::obj(&[("history", json::esc(&text))]);
-        out.nontrivial = h[..h.len() - 1].iter().any(|(q, d)| *q >= FIRST_SLOW || matches!(d, Driver::Abandon(_) | Driver::Reask));
+        out.nontrivial = h[..h.len() - 1].iter().any(|(q, d)| (*q >= FIRST_SLOW && *q <= LAST_SLOW) || matches!(d, Driver::Abandon(_) | Driver::Reask));
         // baselines (fresh process, single step)
         for (q, d) in &h {
             let key = format!("{}:{}", q, d.code());
@@ -269,7 +287,7 @@ impl Workload for C22 {
                     Ok(mut o) => {
                         let b = o.remove(0);
                         // a fast query whose baseline reports a timeout after a real second was stalled by the machine: do not keep it
-                        if *q < FIRST_SLOW && b.answers.iter().any(|a| a == TIMEOUT_MSG) && b.elapsed_ms >= 1000 {
+                        if !(*q >= FIRST_SLOW && *q <= LAST_SLOW) && b.answers.iter().any(|a| a == TIMEOUT_MSG) && b.elapsed_ms >= 1000 {
                             out.verdict = Verdict::Inconclusive(format!("baseline of a fast query really took {} ms (machine stall)", b.elapsed_ms)); return out;
                         }
                         self.baseline.insert(key, b); out.count("baseline_processes", 1);
@@ -286,7 +304,7 @@ impl Workload for C22 {
             if o.answers.iter().any(|a| a == TIMEOUT_MSG) { out.count("timed_out_steps", 1); }
             if b.answers != o.answers || b.output != o.output {
                 // a fast step that reports a timeout only in the history although >= 1 s really passed is a machine stall
-                if *q < FIRST_SLOW && o.answers.iter().any(|a| a == TIMEOUT_MSG) && o.elapsed_ms >= 1000 && !b.answers.iter().any(|a| a == TIMEOUT_MSG) {
+                if !(*q >= FIRST_SLOW && *q <= LAST_SLOW) && o.answers.iter().any(|a| a == TIMEOUT_MSG) && o.elapsed_ms >= 1000 && !b.answers.iter().any(|a| a == TIMEOUT_MSG) {
                     out.verdict = Verdict::Inconclusive(format!("step {} really took {} ms (machine stall)", i + 1, o.elapsed_ms)); return out;
                 }
                 out.violate(format!("history|{}|step{}", text, i + 1),
@@ -309,7 +327,7 @@ impl C23 {
         let mut slow = vec![];
         let reps = if tier == Tier::Quick { 1 } else { 8 };
         for _ in 0..reps {
-            for q in FIRST_SLOW..QUERIES.len() { slow.push((q, Driver::SolveAll)); slow.push((q, Driver::Solve(6))); }
+            for q in FIRST_SLOW..=LAST_SLOW { slow.push((q, Driver::SolveAll)); slow.push((q, Driver::Solve(6))); }
         }
         C23 { depth, seed, n_fast: if tier == Tier::Quick { 12_000 } else { 150_000 }, slow, kb: load_kb(depth) }
     }
